@@ -7,8 +7,8 @@
 
    Structure.  Every client function is a *program* over a small set of primitive operations on the transport and
    on the smtp.Client bookkeeping ([prim]); [run] interprets a program against a [world] that also contains the
-   scripted server (harness/smtpx semantics: one decision per greeting / command line / end-of-data, an AUTH exchange
-   with its 334 prompts is one position, exhausted script = all OK) and the TLS handshake oracle.  Because programs
+   scripted server (harness/smtpx semantics in StepAuth mode: one decision per greeting / command line / end-of-data
+   and per client line of an AUTH exchange, exhausted script = all OK) and the TLS handshake oracle.  Because programs
    are data, an invariant preserved by every primitive is preserved by every program (DialProofs.run_inv).
 
    A read that finds no reply while the server keeps the connection open returns a timeout when a deadline is set on
@@ -37,13 +37,17 @@ Inductive verb :=
 | VQuit | VNoop | VRset | VMail | VRcpt | VData
 | VEod.                                       (* message content followed by the terminating dot (one flush) *)
 
-(* the server's choice for one position; [b64] = the reply text is valid base64 (matters for 334 only) *)
-Inductive decision := DOk | DReply (code : N) (b64 : bool) | DDrop | DStall.
+(* the text of a reply as far as the client looks at it (334 challenges only): not base64 / base64 of something
+   non-empty / empty *)
+Inductive txclass := TxPlain | TxB64 | TxEmpty.
+
+(* the server's choice for one position *)
+Inductive decision := DOk | DReply (code : N) (tx : txclass) | DDrop | DStall.
 
 (* TLS handshake oracle (crypto/tls is not modelled): wrong-name / untrusted certificate / garbage are all HsFail *)
 Inductive hs_oracle := HsOk | HsFail | HsStall.
 
-Record reply := mkReply { r_code : N; r_b64 : bool; r_lines : list bytes }.
+Record reply := mkReply { r_code : N; r_tx : txclass; r_lines : list bytes }.
 
 Inductive err :=
 | ECode (c : N) | EProto | EEof | ETimeout | EWrite | EClosed | EHang
@@ -77,7 +81,7 @@ Record srv := mkSrv {
   hs       : hs_oracle;
   sopen    : bool;              (* still serving; false after drop / QUIT 221 / failed handshake *)
   silent   : bool;              (* stalled: reads and discards *)
-  sauth    : option (nat * decision * bytes);  (* AUTH exchange in progress: prompts left, final decision, mechanism *)
+  sauth    : option (nat * bytes);     (* AUTH exchange in progress: prompts left, mechanism *)
   sdata    : bool;              (* data mode *)
   shs      : bool;              (* waiting for the TLS handshake after a 220 to STARTTLS *)
   stls     : bool;
@@ -93,7 +97,7 @@ Definition set_sopen (s : srv) (x : bool) : srv :=
   mkSrv (script s) (mute s) (caps s) (caps_tls s) (hs s) x (silent s) (sauth s) (sdata s) (shs s) (stls s) (slog s) (queue s).
 Definition set_silent (s : srv) (x : bool) : srv :=
   mkSrv (script s) (mute s) (caps s) (caps_tls s) (hs s) (sopen s) x (sauth s) (sdata s) (shs s) (stls s) (slog s) (queue s).
-Definition set_sauth (s : srv) (x : option (nat * decision * bytes)) : srv :=
+Definition set_sauth (s : srv) (x : option (nat * bytes)) : srv :=
   mkSrv (script s) (mute s) (caps s) (caps_tls s) (hs s) (sopen s) (silent s) x (sdata s) (shs s) (stls s) (slog s) (queue s).
 Definition set_sdata (s : srv) (x : bool) : srv :=
   mkSrv (script s) (mute s) (caps s) (caps_tls s) (hs s) (sopen s) (silent s) (sauth s) x (shs s) (stls s) (slog s) (queue s).
@@ -113,9 +117,6 @@ Definition pop_decision (s : srv) : decision * srv :=
   end.
 
 Definition ok_class (c : N) : bool := (200 <=? c) && (c <? 400).
-
-Definition okish (d : decision) : bool :=
-  match d with DOk => true | DReply c _ => ok_class c | _ => false end.
 
 Definition default_code (v : verb) : N :=
   match v with
@@ -158,15 +159,32 @@ Definition apply_decision (s : srv) (v : verb) (d : decision) : srv :=
   | DOk =>
       let c := default_code v in
       let lines := match v with VEhlo => if stls s then caps_tls s else caps s | _ => [] end in
-      after_reply (deliver (log_pos s v c) (mkReply c false lines)) v c
-  | DReply c b =>
+      after_reply (deliver (log_pos s v c) (mkReply c TxPlain lines)) v c
+  | DReply c tx =>
       let lines := match v with
-                   | VEhlo => if ok_class c && negb b then (if stls s then caps_tls s else caps s) else []
+                   | VEhlo => if ok_class c && (match tx with TxPlain => true | _ => false end)
+                              then (if stls s then caps_tls s else caps s) else []
                    | _ => [] end in
-      after_reply (deliver (log_pos s v c) (mkReply c b lines)) v c
+      after_reply (deliver (log_pos s v c) (mkReply c tx lines)) v c
   end.
 
-Definition prompt : reply := mkReply 334 true [].
+(* the mechanism's next prompt: LOGIN "Username:" / "Password:", a CRAM-MD5 challenge (base64); PLAIN: empty *)
+Definition prompt (mech : bytes) : reply :=
+  mkReply 334 (if bytes_eqb mech (bs "PLAIN") then TxEmpty else TxB64) [].
+
+(* one client line of an AUTH exchange (smtpx.Server.stepAuth): [k] prompts are left for mechanism [m] *)
+Definition auth_line (s : srv) (k : nat) (m : bytes) (d : decision) : srv :=
+  match d with
+  | DOk =>
+      match k with
+      | S k' => deliver (set_sauth s (Some (k', m))) (prompt m)
+      | O => apply_decision (set_sauth s None) (VAuth m None) DOk
+      end
+  | DReply c tx =>
+      if c =? 334 then deliver (set_sauth s (Some (Nat.pred k, m))) (mkReply 334 tx [])
+      else apply_decision (set_sauth s None) (VAuth m None) d
+  | _ => apply_decision (set_sauth s None) (VAuth m None) d
+  end.
 
 (* the server receives one line *)
 Definition srv_line (s : srv) (v : verb) : srv :=
@@ -174,11 +192,7 @@ Definition srv_line (s : srv) (v : verb) : srv :=
   else if silent s then s
   else if shs s then set_shs (set_sopen s false) false      (* a cleartext line where a ClientHello is expected *)
   else match sauth s with
-  | Some (k, d, m) =>
-      match k with
-      | O => apply_decision (set_sauth s None) (VAuth m None) d
-      | S k' => deliver (set_sauth s (Some (k', d, m))) prompt
-      end
+  | Some (k, m) => let (d, s1) := pop_decision s in auth_line s1 k m d
   | None =>
       if sdata s then
         match v with
@@ -188,11 +202,7 @@ Definition srv_line (s : srv) (v : verb) : srv :=
       else
         let (d, s1) := pop_decision s in
         match v with
-        | VAuth m ir =>
-            match auth_steps m ir with
-            | S k => if okish d then deliver (set_sauth s1 (Some (k, d, m))) prompt else apply_decision s1 (VAuth m None) d
-            | O => apply_decision s1 (VAuth m None) d
-            end
+        | VAuth m ir => auth_line s1 (auth_steps m ir) m d
         | _ => apply_decision s1 v d
         end
   end.
@@ -454,27 +464,32 @@ Inductive nres := NErr | NDone | NResp (t : taint).
 
 Record auth_impl := mkAuth {
   a_start : bool -> bool -> sres;     (* ServerInfo.TLS, isLocalhost(ServerInfo.Name); Name = host always holds *)
-  a_next  : nat -> bool -> nres       (* number of earlier Next calls, more *)
+  a_next  : nat -> bool -> bool -> nres   (* number of earlier Next calls, more, the challenge is empty *)
 }.
 
 Definition plain_impl (allow_unenc : bool) : auth_impl :=
   mkAuth (fun tls lh => if negb allow_unenc && negb tls && negb lh then SErr EUnenc else SOk (bs "PLAIN") (Some TPass))
-         (fun _ more => if more then NErr else NDone).
+         (fun _ more _ => if more then NErr else NDone).
 
 Definition login_impl (allow_unenc : bool) : auth_impl :=
   mkAuth (fun tls lh => if negb allow_unenc && negb tls && negb lh then SErr EUnenc else SOk (bs "LOGIN") None)
-         (fun k more => if more then match k with O => NResp TUser | S O => NResp TPass | _ => NErr end else NDone).
+         (fun k more _ => if more then match k with O => NResp TUser | S O => NResp TPass | _ => NErr end else NDone).
 
 Definition cram_impl : auth_impl :=
-  mkAuth (fun _ _ => SOk (bs "CRAM-MD5") None) (fun _ more => if more then NResp TDerived else NDone).
+  mkAuth (fun _ _ => SOk (bs "CRAM-MD5") None) (fun _ more _ => if more then NResp TDerived else NDone).
 
 Definition xoauth2_impl : auth_impl :=
-  mkAuth (fun _ _ => SOk (bs "XOAUTH2") (Some TToken)) (fun _ more => if more then NResp TNone else NDone).
+  mkAuth (fun _ _ => SOk (bs "XOAUTH2") (Some TToken)) (fun _ more _ => if more then NResp TNone else NDone).
 
-(* SCRAM: the first client message follows an empty 334; none of the harness servers speaks SCRAM, every
-   non-empty challenge they send is rejected by the mechanism (its message handling is C14/C15's model) *)
+(* SCRAM: an empty challenge makes the client (re)send its first message (n=user,r=nonce); none of the harness
+   servers speaks SCRAM, every non-empty challenge they send ("verif") is neither r=... nor v=... and is rejected
+   (the message handling proper is C14/C15's model).  A success reply is refused once the exchange is running (the
+   client-first-message was sent, i.e. an earlier Next call happened) because no server signature was verified;
+   a bare 235 to the AUTH command is accepted (C15's known finding). *)
 Definition scram_impl (name : bytes) : auth_impl :=
-  mkAuth (fun _ _ => SOk name None) (fun _ more => if more then NErr else NDone).
+  mkAuth (fun _ _ => SOk name None)
+         (fun k more empty => if more then (if empty then NResp TUser else NErr)
+                              else match k with O => NDone | S _ => NErr end).
 
 Definition is_xoauth2 (mech : bytes) : bool := bytes_eqb mech (bs "XOAUTH2").
 
@@ -484,8 +499,13 @@ Fixpoint auth_loop (fuel : nat) (a : auth_impl) (mech : bytes) (k : nat) (rp : r
   | O => Ret (Err EFuel)
   | S f =>
       let step : nres + err :=
-        if r_code rp =? Gen.smtp_auth_code_more then (if r_b64 rp then inl (a_next a k true) else inr EMech)
-        else if r_code rp =? Gen.smtp_auth_code_success then inl (a_next a k false)
+        if r_code rp =? Gen.smtp_auth_code_more then
+          match r_tx rp with
+          | TxPlain => inr EMech                       (* base64 decoding of the challenge fails *)
+          | TxB64 => inl (a_next a k true false)
+          | TxEmpty => inl (a_next a k true true)
+          end
+        else if r_code rp =? Gen.smtp_auth_code_success then inl (a_next a k false false)
         else inr (ECode (r_code rp)) in
       let fail (e : err) : prog (res unit) :=
         (if is_xoauth2 mech then Ret tt else (cmd 501 VAbort ;;; Ret tt)) ;;;
@@ -825,7 +845,7 @@ Definition world0 (s : srv) : world := mkW s conn0 cs0 [].
 
 (* a bound on the number of AUTH round trips: every trip consumes a decision or a pending prompt, and the
    reply to a continuation line after the script is exhausted is 500 *)
-Definition fuel_for (s : srv) : nat := S (S (S (S (length (script s))))).
+Definition fuel_for (s : srv) : nat := S (S (S (S (S (S (length (script s))))))).
 
 (* the values of the repairs on the working tree (T1) *)
 Definition src_fx_close : bool := Gen.dial_error_returns_close.
